@@ -21,7 +21,8 @@ from ..harness import Run, pmap, rotate, short, time_limit, CaseTimeout
 PROPERTY = "C17"
 LEVEL = "exploration"
 INTERNAL = re.compile(r"(SYM|FUN|QTY)\d+")
-POINTS = [{"a": "3/7", "beta_1": "11/5", "x_c": "13/3"}, {"a": "17/9", "beta_1": "2/7", "x_c": "5/11"}]
+POINTS = [{"a": "3/7", "beta_1": "11/5", "x_c": "13/3", "n": "2", "w": "3/10+4*I", "v": "-6/5+7/10*I"},
+    {"a": "17/9", "beta_1": "2/7", "x_c": "5/11", "n": "3", "w": "-7/5-19/4*I", "v": "5/3+2*I"}]
 
 
 def mp_value(e: Any, rep: dict) -> Any:
@@ -53,8 +54,8 @@ def canonical_case(d: Any) -> Optional[tuple[str, str, str]]:
         return key, "checked", f"rendering {text!r} does not parse: {ex}"
     tol = 1e-11 if e.atoms(sp.Float) else 1e-25
     for pt in POINTS:
-        env = {k: mpmath.mpf(sp.Rational(v).p) / sp.Rational(v).q for k, v in pt.items()}
-        rep = {s: sp.Rational(pt[s.display_name]) for s in syms}
+        env = {k: printspace.point_mp(v) for k, v in pt.items()}
+        rep = {s: printspace.point_value(pt[s.display_name]) for s in syms}
         try:
             want = mp_value(e, rep)
             got = parse_code.evaluate(tree, env)
@@ -84,8 +85,8 @@ def entry_value_ok(text: str, e: Any) -> str:
     except parse_code.ParseError as ex:
         return f"entry {text!r} does not parse: {ex}"
     for pt in POINTS:
-        env = {k: mpmath.mpf(sp.Rational(v).p) / sp.Rational(v).q for k, v in pt.items()}
-        rep = {s_: sp.Rational(pt[s_.display_name]) for s_ in syms}
+        env = {k: printspace.point_mp(v) for k, v in pt.items()}
+        rep = {s_: printspace.point_value(pt[s_.display_name]) for s_ in syms}
         try:
             if not values.close(parse_code.evaluate(tree, env), mp_value(sp.sympify(e), rep), 1e-25,
                     1e-40):
